@@ -17,7 +17,7 @@ MANIFEST = dict(
     level="model_checking", design_ref="DESIGN.md 8 (C03), 7 (Playback), Appendix A.2",
     technique="TLA+ model of the playback state machine (TLC, all command sequences up to a bound at all callback boundaries) checked against a set-valued property monitor; TLC behaviours replayed on real static and streaming sounds; TLC trace validation against P_C03",
     text="TLC explores every history of up to 3-4 life-cycle commands with fade durations {0,1,3} chunks and start times (delayed, clock, missing clock) interleaved with up to 7-9 callbacks, for looping and finite sounds, against the property-level monitor (legal successor states with the +-1 callback fade window, exact silence/unity at fade end, monotone gain, silence and frozen position while not advancing, Stopped final, unloading, finite sounds stop). Generated and random histories are run on the real static and streaming sound implementations and each recorded session is validated by TLC against the same monitor.",
-    note="One callback = one internal chunk (4 frames at 8 Hz) so all times are exact. The statement leaves open the order of different-kind commands written between the same two callbacks and commands arriving during Stopping: every outcome is accepted there. Streaming sessions rely on a free-running decoder thread that is given time to fill its ring (not scheduled).")
+    note="One callback = one internal chunk (4 frames at 8 Hz) so all times are exact. The statement leaves open the order of different-kind commands written between the same two callbacks and commands arriving during Stopping: every outcome is accepted there. Streaming sessions rely on a free-running decoder thread that is given time to fill its ring (not scheduled); 'starved' sessions use a decoder that hangs in decode() after 0 or 30 frames - there only the life-cycle clauses apply (the sound is silent whatever its state).")
 
 
 def cfg(durs, waits, maxcmd, maxcb, finite, lenc, extra):
@@ -71,6 +71,10 @@ def generate(tier, rng):
         for b in bs:
             for kind in ("static", "stream"):
                 scen.append({"kind": kind, "finite": fin, "lenc": 3, "src": "tlc-sim", "steps": b})
+            if not fin:
+                # the same history on a stream whose decoder delivers nothing (or 30 frames) and then hangs:
+                # silent, but the life cycle must run on time all the same
+                scen.append({"kind": "starved", "after": [0, 30][len(scen) % 2], "finite": False, "lenc": 3, "src": "tlc-sim-starved", "steps": b})
     # bounded exhaustive: every behaviour of depth 5 (quick) / 6 (thorough) with one duration set
     depth = 5 if tier == "quick" else 6
     base = cfg([0, 2], [0, 2], 3, 5, False, 3, "  D = %d\nCONSTRAINT Bound\nINVARIANT Dump\n" % depth)
@@ -107,7 +111,7 @@ def generate(tier, rng):
 def drift_of(scen, sessions):
     out = []
     for k, sc in enumerate(scen):
-        if not sc["src"].startswith("tlc-"):
+        if not sc["src"].startswith("tlc-") or sc["kind"] == "starved":
             continue
         evs = [e for e in sessions.get(k + 1, []) if e["a"] in ("cmd", "cb")]
         for j, step in enumerate(sc["steps"]):
